@@ -199,7 +199,7 @@ def run_shard(ctx):
                 if follow and agreed and os.path.islink(pth):
                     # (one level: the name it points at may by now be a link into the cache itself)
                     rel = os.path.relpath(os.path.normpath(os.path.join(os.path.dirname(pth), os.readlink(pth))), ws)
-                    return not rel.startswith("..") and agreed_to(tuple(rel.split(os.sep)), follow=False)
+                    return not (rel == os.pardir or rel.startswith(os.pardir + os.sep)) and agreed_to(tuple(rel.split(os.sep)), follow=False)
                 return False
 
             ro_handle = rng.random() < 0.15
